@@ -70,7 +70,13 @@ Inductive event :=
 | Stop (force : bool)                 (* force = the context given to Stop is already done *)
 | UpdateAddr (a : addr) (force : bool)
 | SdkFail (b : bool)                  (* from now on UpdateDeviceOperatingState fails / works *)
-| Send (r : reader_reply).            (* TrySend of an ordinary request; r = what a connected reader answers *)
+| Send (r : reader_reply)             (* TrySend of an ordinary request; r = what a connected reader answers *)
+| StopAtEntry (force : bool).         (* Stop whose cancellation is first seen by the outer `for ctx.Err() == nil`
+                                         or by Slow.RetryWithCtx's entry check: when the supervisor is about to
+                                         dial (no attempt under way, not in a pause) it then ends WITHOUT running
+                                         the slow func, hence without Down block. In Go both this and [Stop]
+                                         happen there, a few instructions apart; in every other state the two
+                                         events coincide. *)
 
 (* append-only history, oldest first *)
 Inductive entry :=
@@ -238,6 +244,14 @@ Definition step (s : state) (e : event) : state :=
     if N.eqb a old then s
     else if connected s then close_conn s
     else close_locked force s
+  | StopAtEntry force =>
+    if stopped s then close_locked force s
+    else
+      let s := app (set_stopped s) LStop in
+      if connected s then close_conn s
+      else
+        let s := if in_slow s || Nat.eqb (round_fails s) 0 then s else down_block s in
+        close_locked force s
   | SdkFail b => set_sdk s b
   | Send r =>
     let c0 := send_class (lcl s) r in
@@ -304,7 +318,7 @@ Fixpoint last_addr (a : addr) (evs : list event) : addr :=
   | _ :: evs' => last_addr a evs'
   end.
 
-Definition is_stop (e : event) : bool := match e with Stop _ => true | _ => false end.
+Definition is_stop (e : event) : bool := match e with Stop _ | StopAtEntry _ => true | _ => false end.
 Definition is_sdkfail (e : event) : bool := match e with SdkFail true => true | _ => false end.
 Definition is_established (e : event) : bool := match e with Dial Established => true | _ => false end.
 Definition handshake_ok (o : outcome) : bool :=
